@@ -74,6 +74,33 @@ class Subst(ast.NodeTransformer):
     def visit_Lambda(self, node):
         return node
 
+    def visit_Tuple(self, node):
+        node = self.generic_visit(node)
+        # (*(a, b), c) is (a, b, c): a written-out tuple that reached a star position by substitution
+        if any(isinstance(x, ast.Starred) and isinstance(x.value, (ast.Tuple, ast.List)) and not any(isinstance(y, ast.Starred) for y in x.value.elts) for x in node.elts):
+            elts = []
+            for x in node.elts:
+                if isinstance(x, ast.Starred) and isinstance(x.value, (ast.Tuple, ast.List)) and not any(isinstance(y, ast.Starred) for y in x.value.elts):
+                    elts.extend(x.value.elts)
+                else:
+                    elts.append(x)
+            node = ast.copy_location(ast.Tuple(elts=elts, ctx=node.ctx), node)
+        # index tuples spelled with the builtins: Ellipsis, slice(None)
+        if isinstance(node.ctx, ast.Load) and any((isinstance(x, ast.Name) and x.id == "Ellipsis") or (isinstance(x, ast.Call) and isinstance(x.func, ast.Name) and x.func.id == "slice") for x in node.elts):
+            elts = []
+            for x in node.elts:
+                if isinstance(x, ast.Name) and x.id == "Ellipsis":
+                    elts.append(ast.copy_location(ast.Constant(value=Ellipsis), x))
+                elif isinstance(x, ast.Call) and isinstance(x.func, ast.Name) and x.func.id == "slice" and not x.keywords and 1 <= len(x.args) <= 3:
+                    a = list(x.args)
+                    none = lambda e: isinstance(e, ast.Constant) and e.value is None
+                    lo, hi, st = (None, a[0], None) if len(a) == 1 else (a[0], a[1], a[2] if len(a) == 3 else None)
+                    elts.append(ast.copy_location(ast.Slice(lower=None if lo is None or none(lo) else lo, upper=None if hi is None or none(hi) else hi, step=None if st is None or none(st) else st), x))
+                else:
+                    elts.append(x)
+            node = ast.copy_location(ast.Tuple(elts=elts, ctx=node.ctx), node)
+        return node
+
     def visit_Subscript(self, node):
         node = self.generic_visit(node)
         # (a, b)[0] is a: a written-out tuple that reached the subscript by substitution
